@@ -75,9 +75,17 @@ def _hdlc_cases(res, cases, family):
 
 
 def p1_pre(rng):
-    k = rng.randrange(7)
+    k = rng.randrange(9)
     if k == 0:
         return b""
+    if k >= 7:   # a COMPLETE readout with line noise in a data line or the end line (bit 7 set, or any octet), ident line intact
+        r = bytearray(P.gen_readout(rng, nlines=rng.choice([1, 3, 5])))
+        lf = r.find(b"\n") + 1
+        for _ in range(rng.choice([1, 1, 2])):
+            pos = rng.randrange(lf, len(r) - 2)
+            if r[pos] not in (0x21, 0x0A, 0x0D):
+                r[pos] = (r[pos] | 0x80) if rng.random() < 0.7 else rng.randrange(256)
+        return bytes(r)
     if k == 1:
         return P.gen_noise(rng)
     if k == 2:   # truncated readout
